@@ -1,4 +1,6 @@
 import ButlerModel.Model.Eval
+import ButlerModel.Model.Sql3
+import ButlerModel.Gen.InRangeSql
 /-! # C05 — a where-expression selects exactly the rows for which it is true -/
 namespace C05
 open Eval K3
@@ -60,6 +62,7 @@ theorem member_congr (t1 t2 : Int → Rng → Bool) (v : V) (lits : List V) (rng
 theorem compile_correct (row : Row) : ∀ (p : P), WellFormed p → sql true row p = denote row p
   | .cmp _ _ _, _ => rfl
   | .isNull _ _, _ => rfl
+  | .flag _, _ => rfl
   | .inSet a lits rngs notIn, h => by
     simp only [sql, denote, evalWith]
     rw [member_congr (inRangeSql true) inRangeDoc _ lits rngs (fun m r hr => inRange_correct m r (h r hr))]
@@ -94,6 +97,11 @@ theorem not_of_unknown_drops_row (row : Row) (p : P) (h : denote row p = .nn) : 
   simp only [denote, evalWith] at h ⊢; rw [h]; rfl
 theorem null_test_is_two_valued (row : Row) (a : Sc) (n : Bool) : denote row (.isNull a n) ≠ .nn := by
   simp only [denote, evalWith, ofBool]; split <;> split <;> simp
+/-- A boolean column that is NULL is unknown, and stays unknown under NOT: the row is dropped either way. -/
+theorem null_flag_unknown_under_not (row : Row) (n : String) (h : row n = .null) :
+    denote row (.flag n) = .nn ∧ denote row (.not (.flag n)) = .nn := by
+  simp [denote, evalWith, h, not3]
+
 theorem not_in_is_negation (row : Row) (a : Sc) (l : List V) (r : List Rng) :
     denote row (.inSet a l r true) = not3 (denote row (.inSet a l r false)) := by
   simp [denote, evalWith]
@@ -102,3 +110,62 @@ example : denote (fun _ => .int 4) (.inSet (.sub (.col "detector") (.lit (.int 7
 example : WellFormed (.inSet (.col "d") [] [⟨-5, 5, 2⟩] false) := by simp [WellFormed]
 
 end C05
+
+/-! ## The range compilation as it is in the source **now**
+
+`Gen.InRange.inRangeSql` is `SqlColumnVisitor.visit_in_range`, translated from the working tree on every
+run (`translate/gen_inrange.py`).  A change to that function changes this definition, and the theorems
+below must still go through. -/
+namespace C05.Translated
+open Eval
+
+theorem tmod_nonneg_eq (x s : Int) (h : 0 ≤ x) : x.tmod s = x % s := Int.tmod_eq_emod_of_nonneg h
+
+/-- **The translated compilation of `m IN (a..b:s)` is exactly documented membership**, for every
+integer member (negative ones included), every `a ≤ b` and every positive stride. -/
+theorem translated_inRange_correct (env : Nat → Sql.V) (m a b s : Int) (hm : env 0 = .int m) (hs : 0 < s) (hab : a ≤ b) :
+    Sql.eval env (Gen.InRange.inRangeSql (.col 0) a (some (b + 1)) s) = .bool (inRangeDoc m ⟨a, b, s⟩) := by
+  have hsz : s ≠ 0 := by omega
+  unfold Gen.InRange.inRangeSql inRangeDoc
+  simp only [Option.isNone_some, Bool.false_eq_true, ↓reduceIte, Option.getD_some, Int.add_sub_cancel]
+  by_cases hEq : a = b
+  · subst hEq
+    simp only [decide_true, ↓reduceIte, Sql.eval, hm, Sql.cmp]
+    congr 1
+    by_cases h : m = a
+    · subst h; simp
+    · have : ¬ (a ≤ m ∧ m ≤ a ∧ (m - a) % s = 0) := fun hc => h (by omega)
+      simp [h, this]
+  · simp only [hEq, decide_false, Bool.false_eq_true, ↓reduceIte]
+    by_cases h1 : s = 1
+    · subst h1
+      simp only [ne_eq, not_true_eq_false, decide_false, Bool.false_eq_true, ↓reduceIte, Sql.eval, hm, Sql.cmp, Sql.and3]
+      by_cases ha : a ≤ m <;> by_cases hb : m ≤ b <;> simp [ha, hb, Int.emod_one] <;> omega
+    · simp only [ne_eq, h1, not_false_eq_true, decide_true, ↓reduceIte, Sql.eval, hm, Sql.cmp, Sql.arith, hsz]
+      by_cases ha : a ≤ m
+      · by_cases hb : m ≤ b
+        · have ht : (m - a).tmod s = (m - a) % s := tmod_nonneg_eq _ _ (by omega)
+          by_cases hz : (m - a) % s = 0 <;> simp [ha, hb, ht, hz, Sql.and3]
+        · simp [ha, hb, Sql.and3]
+      · simp [ha, Sql.and3]
+
+/-- A NULL member makes the compiled test unknown, as the documented meaning says. -/
+theorem translated_inRange_null (env : Nat → Sql.V) (a b s : Int) (hm : env 0 = .null) (hs : 0 < s) :
+    Sql.eval env (Gen.InRange.inRangeSql (.col 0) a (some (b + 1)) s) = .null := by
+  have hsz : s ≠ 0 := by omega
+  unfold Gen.InRange.inRangeSql
+  simp only [Option.isNone_some, Bool.false_eq_true, ↓reduceIte, Option.getD_some, Int.add_sub_cancel]
+  by_cases hEq : a = b
+  · simp [hEq, Sql.eval, hm, Sql.cmp]
+  · by_cases h1 : s = 1
+    · simp [hEq, h1, Sql.eval, hm, Sql.cmp, Sql.and3]
+    · simp [hEq, h1, Sql.eval, hm, Sql.cmp, Sql.and3, Sql.arith]
+
+/-- The hand-written `Eval.inRangeSql true` (used by `compile_correct`) is the translated function. -/
+theorem model_is_translation (env : Nat → Sql.V) (m a b s : Int) (hm : env 0 = .int m) (hs : 0 < s) (hab : a ≤ b) :
+    Sql.eval env (Gen.InRange.inRangeSql (.col 0) a (some (b + 1)) s) = .bool (inRangeSql true m ⟨a, b, s⟩) := by
+  rw [translated_inRange_correct env m a b s hm hs hab, C05.inRange_correct m ⟨a, b, s⟩ hs]
+
+example : Sql.eval (fun _ => .int (-3)) (Gen.InRange.inRangeSql (.col 0) (-5) (some 6) 2) = .bool true := by decide
+
+end C05.Translated
